@@ -273,6 +273,10 @@ func driveC06(c *h.Ctx) error {
 			negatives(b, &m, "kmip.ResponseMessage", 100000+k, fmt.Sprintf("Export response of object type 0x%X with an Object Type attribute", uint32(o)), gv.Describe(m), codes)
 		}
 	}
+	if replayIndex < 0 {
+		c06Concurrent(c)
+		c06Reregister(c)
+	}
 	// ---- attribute values of the wrong wire type for their standard name
 	for i, name := range kmip.AllAttributeNames {
 		if i%c.Pick(2, 1) != 0 {
